@@ -634,13 +634,17 @@ def gen_program(rng, style=None, **kw):
 
 
 LOOKALIKE_LINES = [b'__index__ is', b'__gfx__x', b'__x__ y', b'__lua', b'_lua__', b'#include foo', b'-->9', b'version 8', b'pico-8 cartridge',
-                   b'__lua__ ', b'::c::', b':c:', b'__init__(self)', b' __gfx__', b'__gfx__ ']
+                   b'__lua__ ', b'::c::', b':c:', b'__init__(self)', b' __gfx__', b'__gfx__ ',
+                   # whole lines of underscores around glyph identifiers: no section header (a header name is ASCII), though their
+                   # Unicode spelling in the .p8 file consists of letters
+                   b'__\xd1__', b'__a\x9a__', b'__\x80x__', b'__\xe3\x81__', b'__\x89__']
 
 
 def lookalike_programs():
     """Programs in which a line INSIDE a long string, a long comment or a continued quoted string begins like something the cart formats
     give a meaning to at the start of a line (a section header, an include, a tab cut) without being it: to every tool it is text."""
-    out = []
+    allb = b'\n'.join(LOOKALIKE_LINES)
+    out = [b'--[[ all of them\n' + allb + b'\n]]\nlocal s = [==[\n' + allb + b'\n]==]\nx = #s\n']
     for ll in LOOKALIKE_LINES:
         out.append(b'local s = [[a\n' + ll + b'\nb]]\nx = #s\n')
         out.append(b'--[[ c\n' + ll + b'\n]]\nx = 1\n')
